@@ -64,7 +64,10 @@ Stop(r)  == SetMax(AllCoords(r.spans))
 
 Pairs == {p \in Coords \X Coords : p[1] <= p[2]}
 Spans1 == {<<p>> : p \in Pairs}
-Spans2 == {<<p, q>> : <<p, q>> \in {pq \in Pairs \X Pairs : pq[1][2] <= pq[2][1]}}
+(* two spans in stored (sorted) order: disjoint, abutting, OVERLAPPING, NESTED  *)
+(* or identical -- the extent of a record is the min / max over ALL its spans,  *)
+(* which for nested spans is not "first start, last stop" of the sorted list    *)
+Spans2 == {<<p, q>> : <<p, q>> \in {pq \in Pairs \X Pairs : pq[1] = pq[2] \/ Less(pq[1], pq[2])}}
 AllSpanLists == (IF 1 \in NSpans THEN Spans1 ELSE {}) \cup (IF 2 \in NSpans THEN Spans2 ELSE {})
 SpanLists == IF SpanChoice # {} THEN SpanChoice ELSE AllSpanLists
 (* rows of annotation files describe at least one base *)
@@ -87,7 +90,7 @@ Flip(p) == <<p[2], p[1]>>
 AllWindows == Pairs
 AllPoints == Coords
 NoSpanChoice == {}
-HistSpans == {<< <<0, 2>> >>, << <<1, 2>>, <<3, 4>> >>}
+HistSpans == {<< <<0, 2>> >>, << <<0, 4>>, <<1, 2>> >>}   \* one span; a span nested in another
 AttrSpans == {<< <<1, 3>> >>}
 HistWindows == {<<1, 3>>, <<0, 2>>}
 HistPoints == {1}
